@@ -216,8 +216,11 @@ impl Output {
                 self.create_file_non_lazily(file_size)?
             }
         };
+        crate::verif_phase!("verif: output created");
         write_fn(&mut sized_output, layout)?;
+        crate::verif_phase!("verif: output written");
         sized_output.flush()?;
+        crate::verif_phase!("verif: output flushed");
         sized_output.trace.close()?;
 
         // While we have the output file mmapped with write permission, the file will be locked and
